@@ -42,6 +42,10 @@ func (e edit) String() string {
 			fill = "ff"
 		}
 		return fmt.Sprintf("inject %d bytes of %s before record %d", e.arg, fill, e.i)
+	case "injectmid":
+		return fmt.Sprintf("inject %d bytes of ff between the header and the body of record %d", e.arg, e.i)
+	case "dropheader":
+		return fmt.Sprintf("drop the header of record %d (its body follows the previous record)", e.i)
 	}
 	return e.kind
 }
@@ -97,6 +101,22 @@ func (e edit) apply(recs [][]byte, other [][]byte) [][]byte {
 	case "trunc":
 		all := bytes.Join(recs, nil)
 		out = append(out, cp(all[:e.arg]))
+	case "injectmid":
+		for k, rc := range recs {
+			if k == e.i {
+				out = append(out, cp(rc[:18]), bytes.Repeat([]byte{0xff}, e.arg), cp(rc[18:]))
+			} else {
+				out = append(out, cp(rc))
+			}
+		}
+	case "dropheader":
+		for k, rc := range recs {
+			if k == e.i {
+				out = append(out, cp(rc[18:]))
+			} else {
+				out = append(out, cp(rc))
+			}
+		}
 	case "inject":
 		fill := byte(0)
 		if e.j == 1 {
@@ -214,7 +234,8 @@ func TestC02(t *testing.T) {
 		{cMin: 2, cMax: 2, sMin: 2, sMax: 2, payload: 5},
 		{kk: true, cMin: 2, cMax: 2, sMin: 2, sMax: 2, payload: 5},
 	}
-	sizeSets := [][]int{{0, 1, 5}, {5, 5, 5}, {1, 0, 0, 1}}
+	// (a 2-byte payload makes the body exactly as long as a header: 18 bytes)
+	sizeSets := [][]int{{0, 1, 5}, {5, 5, 5}, {1, 0, 0, 1}, {2, 2, 2, 2}}
 	if r.Thorough() {
 		sizeSets = append(sizeSets, []int{5, 65535, 1}, []int{0, 0, 0, 0})
 	}
@@ -260,6 +281,12 @@ func TestC02(t *testing.T) {
 				}
 				for _, n := range []int{1, 18, 34} {
 					nonflip = append(nonflip, edit{kind: "inject", i: i, j: 0, arg: n}, edit{kind: "inject", i: i, j: 1, arg: n})
+				}
+			}
+			for i := 0; i < k; i++ {
+				nonflip = append(nonflip, edit{kind: "dropheader", i: i})
+				for _, n := range []int{1, 18, sizes[i] + 16, 36} {
+					nonflip = append(nonflip, edit{kind: "injectmid", i: i, arg: n})
 				}
 			}
 			total := 0
@@ -333,6 +360,7 @@ func TestC02(t *testing.T) {
 		for _, e := range j.edits {
 			if e.kind == "swap" && e.i+1 >= len(delivered) || e.kind == "flip" && (e.i >= len(delivered) || e.arg/8 >= len(delivered[e.i])) ||
 				(e.kind == "drop" || e.kind == "dup" || e.kind == "replay") && (e.i >= len(delivered) || e.j >= len(delivered)) ||
+				(e.kind == "injectmid" || e.kind == "dropheader") && (e.i >= len(delivered) || len(delivered[e.i]) < 18) ||
 				(e.kind == "reflect" || e.kind == "inject") && e.i > len(delivered) {
 				return // second edit does not apply to the edited list
 			}
@@ -366,6 +394,28 @@ func TestC02(t *testing.T) {
 		// whose body fails authentication leaves the nonce and the
 		// framing in step, so later genuine records still decrypt).
 		if firstErr >= 0 && len(got) > firstErr {
+			// What a reader that carries on after the error is handed
+			// must still be authentic and in order: genuine later
+			// messages of the peer (a record whose body fails
+			// authentication leaves the nonce and the framing in step,
+			// so the following records still decrypt), never altered,
+			// replayed, reflected or misframed data.
+			next := firstErr
+			for _, g := range got[firstErr:] {
+				found := -1
+				for q := next; q < len(msgs); q++ {
+					if bytes.Equal(msgs[q], g) {
+						found = q
+						break
+					}
+				}
+				if found < 0 {
+					r.Violation("forged-data-after-error/"+ek,
+						fmt.Sprintf("%s: after the read error at position %d the reader was handed %d bytes (%x) that the peer did not write at any later position", label, firstErr, len(g), trunc16(g)), ctx)
+					return
+				}
+				next = found + 1
+			}
 			note("resync-after-error (informational)")
 			got = got[:firstErr]
 			after = ""
@@ -495,7 +545,14 @@ func TestC02(t *testing.T) {
 	r.Set("evaluations", evals)
 	r.Set("distinct_nontrivial", nontrivial)
 	r.Set("outcome_classes", classes)
-	r.Set("rule", "after a real handshake (XX v0, XX v2, KK), both directions, through Machine.ReadMessage and NoiseConn: streams of 3-4 records of 0/1/5 bytes (65535 thorough) including equal plaintexts; every single-bit flip of every byte of every record; drop, duplicate, swap-adjacent, replay-later, reflect (a record of the opposite direction), inject 1/18/34 bytes of 00/ff before every record, truncate at every byte offset; thorough: all ordered pairs of non-flip edits; long streams of 499/500/501/1001 records each way (across key rotations) followed by a reflected or replayed record 0/1/499/500/501 positions back, plus the check that the two directions never share a key. The reader reads until three consecutive errors. distinct_nontrivial = altered streams on which the oracle (prefix, tampered record never accepted, deviation reported as an error, nothing valid after an error) held")
+	r.Set("rule", "after a real handshake (XX v0, XX v2, KK), both directions, through Machine.ReadMessage and NoiseConn: streams of 3-4 records of 0/1/5 bytes (65535 thorough) including equal plaintexts; every single-bit flip of every byte of every record; drop, duplicate, swap-adjacent, replay-later, reflect (a record of the opposite direction), inject 1/18/34 bytes of 00/ff before every record, inject bytes between header and body, drop a header, truncate at every byte offset; thorough: all ordered pairs of non-flip edits; long streams of 499/500/501/1001 records each way (across key rotations) followed by a reflected or replayed record 0/1/499/500/501 positions back, plus the check that the two directions never share a key. The reader reads until three consecutive errors. distinct_nontrivial = altered streams on which the oracle (prefix, tampered record never accepted, deviation reported as an error, nothing valid after an error) held")
 	r.Set("exhaustive", true)
 	exitCode = r.Finish()
+}
+
+func trunc16(b []byte) []byte {
+	if len(b) > 16 {
+		return b[:16]
+	}
+	return b
 }
